@@ -5,6 +5,7 @@
   compared with the observed ones, component by component.  Lines starting with '#' are echoed.
 -/
 import AllianceModel
+import AllianceProofs.ScopeCheck
 open Alliance Alliance.Trace
 
 /-- components not predicted for a given operation kind -/
@@ -36,6 +37,14 @@ def compareStep (idx : Nat) (pre : World) (op : XOp) (wd : List (ValId × Coins)
     if mask.contains m.1 then continue
     if m.2 ≠ o.2 then
       out := out ++ [s!"step {idx} diverge component={m.1} model=[{m.2}] impl=[{o.2}]"]
+  -- the custody theorems, instantiated on this observed step: hypotheses (Core, OpScope, non-negative responses)
+  -- and conclusions (gap did not fall, Core kept, custody covers what is owed), evaluated with the theorems' own definitions
+  match op with
+  | .op o =>
+    if obsRes = "ok" && wd.all (fun p => p.2.all (fun c => decide (0 ≤ c.2))) then
+      for msg in theoremCheckC01 o pre post do
+        out := out ++ [s!"step {idx} diverge component=theorem.C01 model=[{msg}] impl=[observed state]"]
+  | .reimport => pure ()
   if out.isEmpty then return [s!"step {idx} ok"]
   return out
 
